@@ -5,6 +5,7 @@ use serde_json::Value;
 pub mod c01;
 pub mod c03;
 pub mod c05;
+pub mod c06;
 pub mod c09;
 pub mod c10;
 pub mod c13;
@@ -22,6 +23,7 @@ pub fn all() -> Vec<Prop> {
         Prop { id: "C01", run: c01::run, replay: c01::replay },
         Prop { id: "C03", run: c03::run, replay: c03::replay },
         Prop { id: "C05", run: c05::run, replay: c05::replay },
+        Prop { id: "C06", run: c06::run, replay: c06::replay },
         Prop { id: "C09", run: c09::run, replay: c09::replay },
         Prop { id: "C10", run: c10::run, replay: c10::replay },
         Prop { id: "C13", run: c13::run, replay: c13::replay },
